@@ -110,9 +110,10 @@ def run(prop: str, tier: str, seed: int):
            "functions": [], "rule": ""}
     seen = set()
     if prop in ("C04", "C05", "C12"):
-        out["functions"] = ["Substitutor.visit_list", "Substitutor.visit_dict", "Substitutor.visit_any",
-                            "Substitutor.visit_type_alias", "Substitutor._substitute_elements", "Substitutor._from_native",
-                            "SubstitutorValidator.visit_list", "SubstitutorValidator.visit_dict"]
+        out["functions"] = ["SubstitutorValidator.visit_list (assumed contract rvalid)",
+                            "SubstitutorValidator.visit_dict (assumed contract rvalid)",
+                            "idempotence of container substitution (C12; not a proof obligation)",
+                            "second opinion on the container visits of Substitutor (which are under contract)"]
         out["rule"] = ("every pair of %d container schemas (typed / element / head / tail / contains lists, strict / relaxed / "
                        "nested / optional dicts, any, alias) and ~35 values each (conforming, partial, perturbed, extra keys, "
                        "inconvertible members, ... placeholders); distinct = pairs for which the substitution is attempted on a "
